@@ -1,6 +1,8 @@
 package main
 
 import (
+	"runtime"
+	"runtime/debug"
 	"bufio"
 	"encoding/json"
 	"flag"
@@ -106,7 +108,18 @@ func runCmd(args []string) {
 	model := fs.String("model", "", "model output file")
 	out := fs.String("out", "", "result file (json lines: mismatches, then one summary)")
 	vset := fs.Int("vset", 0, "default value set")
+	ownOut := fs.String("own", "", "write the ownership event trace of every program to this file (C19)")
 	fs.Parse(args)
+	var ownW *bufio.Writer
+	if *ownOut != "" {
+		f, err := os.Create(*ownOut)
+		must(err)
+		defer f.Close()
+		ownW = bufio.NewWriter(f)
+		defer ownW.Flush()
+		own.install()
+		debug.SetGCPercent(-1) // no address is reused while a program's slice ids are alive
+	}
 	pf, err := os.Open(*progs)
 	must(err)
 	mf, err := os.Open(*model)
@@ -136,6 +149,10 @@ func runCmd(args []string) {
 		msteps := mr.forProgram(pid)
 		sum.Programs++
 		p := &prog{vset: *vset}
+		if ownW != nil {
+			runtime.GC()
+			own.reset()
+		}
 		var opsig []string
 		seenTag := map[string]bool{}
 		for _, ms := range msteps {
@@ -159,6 +176,9 @@ func runCmd(args []string) {
 				opsig = append(opsig, toks[0])
 			}
 			r := p.step(i, toks)
+			if ownW != nil {
+				own.afterStep(p, i)
+			}
 			if res, ok := r.fields["r"]; ok {
 				sum.Outcomes[res]++
 			}
@@ -225,6 +245,9 @@ func runCmd(args []string) {
 			if r.stop {
 				break
 			}
+		}
+		if ownW != nil {
+			fmt.Fprintln(ownW, own.line(pid))
 		}
 		if len(sum.Samples) < 5 && sum.Programs%97 == 1 {
 			sum.Samples = append(sum.Samples, line)
